@@ -6,6 +6,7 @@ import (
 	"go/token"
 	"go/types"
 	"os"
+	"regexp/syntax"
 	"sort"
 	"strings"
 
@@ -26,6 +27,7 @@ func runC13(w *World) *Result {
 	r.Rule("R-C13-result", "error ⇒ empty script; no explicit panic; non-empty error messages", 10)
 	r.Rule("R-C13-progress", "parser loops consume a token on every iteration or leave through an error; lexer character tests fail at the end of the input", 12)
 	ClassTestRule(w, r, "R-C13-progress")
+	LexProgressRule(w, r, "R-C13-progress")
 	c13Assert(w, r)
 	c13Index(w, r)
 	c13Rec(w, r)
@@ -1693,4 +1695,339 @@ func entryGuardedRecursion(fn *ssa.Function) bool {
 		}
 	}
 	return n > 0
+}
+
+// LexProgressRule: every loop of the lexer that is not a range loop makes progress on each
+// cycle: no path from the loop header back to it avoids every instruction that strictly
+// advances the position (pos + k with a positive constant; pos + len(s) where s is known
+// to be non-empty there: tested against "", a non-nil match of a probe that cannot match
+// the empty string, an entry of the punctuation table). A cycle without such an
+// instruction is a possible hang on some input.
+func LexProgressRule(w *World, r *Result, rule string) {
+	lf, err := BuildLexFacts(w)
+	if err != nil {
+		r.Bad(rule, "lexloop:facts", "-", err.Error())
+		return
+	}
+	punctNonEmpty := len(lf.Punct) > 0
+	for _, e := range lf.Punct {
+		if e.Value == "" {
+			punctNonEmpty = false
+		}
+	}
+	// regex call sites by position of the MustCompile call
+	nullableAt := map[token.Pos]bool{}
+	for _, re := range lf.Regexes {
+		if re.Tree != nil {
+			nullableAt[re.Call.Lparen] = regexNullable(re.Tree)
+		}
+	}
+	n := 0
+	for _, fn := range w.Funcs("lexer") {
+		if len(fn.Blocks) == 0 {
+			continue
+		}
+		loops := naturalLoops(fn)
+		headers := map[*ssa.BasicBlock]bool{}
+		for _, h := range loops {
+			headers[h] = true
+		}
+		// is string value s non-empty at block b?
+		var nonEmpty func(s ssa.Value, b *ssa.BasicBlock, depth int) bool
+		nonEmpty = func(s ssa.Value, b *ssa.BasicBlock, depth int) bool {
+			if depth > 3 {
+				return false
+			}
+			if k, ok := s.(*ssa.Const); ok && k.Value != nil {
+				return constStringVal(k) != ""
+			}
+			// element of the punctuation table
+			if fld, ok := s.(*ssa.Field); ok {
+				if u, ok := fld.X.(*ssa.UnOp); ok {
+					if ia, ok := u.X.(*ssa.IndexAddr); ok {
+						if g, ok := ia.X.(*ssa.UnOp); ok {
+							if gl, ok := g.X.(*ssa.Global); ok && lf.PunctVar != nil && gl.Name() == lf.PunctVar.Name() {
+								return punctNonEmpty
+							}
+						}
+					}
+				}
+			}
+			// tested against "" on the way to b
+			for d := b; d != nil; d = d.Idom() {
+				p := d.Idom()
+				if p == nil {
+					break
+				}
+				c, neg := condOf(p)
+				bo, ok := c.(*ssa.BinOp)
+				if !ok || (bo.Op != token.NEQ && bo.Op != token.EQL) {
+					continue
+				}
+				onTrue := p.Succs[0].Dominates(b) && len(p.Succs[0].Preds) == 1
+				onFalse := p.Succs[1].Dominates(b) && len(p.Succs[1].Preds) == 1
+				if !onTrue && !onFalse {
+					continue
+				}
+				holds := onTrue != neg
+				if k, ok := bo.Y.(*ssa.Const); ok && bo.X == s && k.Value != nil && k.Value.Kind() == constant.String && constStringVal(k) == "" {
+					if (bo.Op == token.NEQ) == holds {
+						return true
+					}
+				}
+				// matches != nil for s = matches[0] of a probe that cannot match the empty string
+				if k, ok := bo.Y.(*ssa.Const); ok && k.IsNil() && (bo.Op == token.NEQ) == holds {
+					if u, ok := s.(*ssa.UnOp); ok {
+						if ia, ok := u.X.(*ssa.IndexAddr); ok && ia.X == bo.X && isConstInt(ia.Index, 0) {
+							if call, ok := bo.X.(*ssa.Call); ok {
+								if nl, known := nullableAt[call.Pos()]; known && !nl {
+									return true
+								}
+							}
+						}
+					}
+				}
+			}
+			return false
+		}
+		positive := func(ins ssa.Instruction) bool {
+			bo, ok := ins.(*ssa.BinOp)
+			if !ok || bo.Op != token.ADD || !isInt(bo.Type()) {
+				return false
+			}
+			for _, y := range []ssa.Value{bo.Y, bo.X} {
+				if k, ok := y.(*ssa.Const); ok && k.Value != nil && k.Int64() > 0 {
+					return true
+				}
+				if c, ok := y.(*ssa.Call); ok {
+					if bi, ok := c.Call.Value.(*ssa.Builtin); ok && bi.Name() == "len" && len(c.Call.Args) == 1 && isString(c.Call.Args[0].Type()) {
+						if nonEmpty(c.Call.Args[0], bo.Block(), 0) {
+							return true
+						}
+					}
+				}
+			}
+			return false
+		}
+		perFn := 0
+		for hdr := range headers {
+			// range loops terminate by construction
+			isRange := false
+			for _, ins := range hdr.Instrs {
+				if ph, ok := ins.(*ssa.Phi); ok && strings.TrimSpace(ph.Comment) == "rangeindex" {
+					isRange = true
+				}
+			}
+			if isRange {
+				continue
+			}
+			// the outermost scanning loop ends through the unknown-token error when no arm matched;
+			// showing that needs the contents of the token variable (value reasoning), which is
+			// out of reach here: only the loops nested in it are decided
+			nested := false
+			for h2 := range headers {
+				if h2 != hdr && loopBody(h2)[hdr] {
+					nested = true
+				}
+			}
+			if !nested {
+				continue
+			}
+			body := loopBody(hdr)
+			cut := map[[2]*ssa.BasicBlock]bool{}
+			// an inner scanning loop that is entered under a character-class test which implies
+			// its own continue-test consumes at least one character: entering it is progress
+			for inner := range headers {
+				if inner == hdr || !body[inner] {
+					continue
+				}
+				if lexFirstIterationRuns(w, lf, fn, inner) {
+					ib := loopBody(inner)
+					for _, p := range inner.Preds {
+						if !ib[p] {
+							cut[[2]*ssa.BasicBlock{p, inner}] = true
+						}
+					}
+				}
+			}
+			for blk := range body {
+				prog := false
+				for _, ins := range blk.Instrs {
+					if positive(ins) {
+						prog = true
+					}
+				}
+				for _, sc := range blk.Succs {
+					if prog || !body[sc] {
+						cut[[2]*ssa.BasicBlock{blk, sc}] = true
+					}
+				}
+			}
+			stuck := false
+			for _, sc := range hdr.Succs {
+				if body[sc] && !cut[[2]*ssa.BasicBlock{hdr, sc}] && (sc == hdr || reachableFromWithout(sc, cut, hdr)) {
+					stuck = true
+				}
+			}
+			n++
+			perFn++
+			key := fmt.Sprintf("lexloop:%s#%d", FuncName(fn), hdr.Index)
+			pos := w.Pos(fn.Pos())
+			for _, ins := range hdr.Instrs {
+				if ins.Pos().IsValid() {
+					pos = w.Pos(ins.Pos())
+					break
+				}
+			}
+			if stuck && os.Getenv("VERIF_DEBUG") == "lexloop" {
+				// witness (ignoring branch consistency): BFS over uncut edges
+				parent := map[*ssa.BasicBlock]*ssa.BasicBlock{}
+				queue := []*ssa.BasicBlock{}
+				for _, sc := range hdr.Succs {
+					if body[sc] && !cut[[2]*ssa.BasicBlock{hdr, sc}] {
+						parent[sc] = hdr
+						queue = append(queue, sc)
+					}
+				}
+				for len(queue) > 0 {
+					x := queue[0]
+					queue = queue[1:]
+					if x == hdr {
+						break
+					}
+					for _, sc := range x.Succs {
+						if cut[[2]*ssa.BasicBlock{x, sc}] {
+							continue
+						}
+						if _, ok := parent[sc]; !ok {
+							parent[sc] = x
+							queue = append(queue, sc)
+						}
+					}
+				}
+				var path []string
+				for x := parent[hdr]; x != nil && x != hdr; x = parent[x] {
+					p := ""
+					for _, ins := range x.Instrs {
+						if ins.Pos().IsValid() {
+							p = w.Pos(ins.Pos())
+							break
+						}
+					}
+					path = append(path, fmt.Sprintf("%d(%s)", x.Index, p))
+				}
+				fmt.Println("LEXLOOP witness", key, path)
+			}
+			if stuck {
+				r.Bad(rule, key, pos, "a cycle of this scanning loop contains no instruction that is known to advance the position (an increment by a positive constant, or by the length of text known to be non-empty): some input makes the lexer loop forever")
+			} else {
+				r.Ok(rule, key, pos, "every cycle advances the position by a positive amount")
+			}
+		}
+	}
+	if n == 0 {
+		r.Bad(rule, "lexloop:none", "-", "no scanning loop found in the lexer")
+	}
+}
+
+func isConstInt(v ssa.Value, n int64) bool {
+	k, ok := v.(*ssa.Const)
+	return ok && k.Value != nil && k.Value.Kind() == constant.Int && k.Int64() == n
+}
+
+// lexFirstIterationRuns: the loop with this header leaves only when a character-class test
+// on the character at the current position fails, the position is incremented by one on
+// every other cycle, and the loop is entered under a class test on the character at the
+// same position whose class is contained in the loop's class. Then the first iteration
+// cannot leave, i.e. the loop consumes at least one character.
+func lexFirstIterationRuns(w *World, lf *LexFacts, fn *ssa.Function, hdr *ssa.BasicBlock) bool {
+	classAt := map[token.Pos]*syntax.Regexp{}
+	for _, re := range lf.Regexes {
+		if re.Method == "MatchString" {
+			if cc, ok := charClassOf(re.Tree); ok {
+				classAt[re.Call.Lparen] = cc
+			}
+		}
+	}
+	// class test on char(source, pos): returns class, the position value and the source value
+	classTest := func(c ssa.Value) (*syntax.Regexp, ssa.Value, ssa.Value, bool) {
+		call, ok := c.(*ssa.Call)
+		if !ok {
+			return nil, nil, nil, false
+		}
+		cc, ok := classAt[call.Pos()]
+		if !ok || len(call.Call.Args) < 2 {
+			return nil, nil, nil, false
+		}
+		ch, ok := call.Call.Args[len(call.Call.Args)-1].(*ssa.Call)
+		if !ok || ch.Call.StaticCallee() == nil || len(ch.Call.Args) != 2 || pkgOf(ch.Call.StaticCallee()) != w.Pkgs["lexer"].Types {
+			return nil, nil, nil, false
+		}
+		return cc, ch.Call.Args[1], ch.Call.Args[0], true
+	}
+	body := loopBody(hdr)
+	// the loop's only exit is the failing class test
+	var inner *syntax.Regexp
+	var posPhi *ssa.Phi
+	var src ssa.Value
+	exits := 0
+	for blk := range body {
+		for _, sc := range blk.Succs {
+			if body[sc] {
+				continue
+			}
+			exits++
+			c, _ := condOf(blk)
+			cc, pos, sv, ok := classTest(c)
+			if !ok {
+				return false
+			}
+			ph, ok := pos.(*ssa.Phi)
+			if !ok || ph.Block() != hdr {
+				return false
+			}
+			inner, posPhi, src = cc, ph, sv
+		}
+	}
+	if exits != 1 || inner == nil {
+		return false
+	}
+	// the value of the position on entry
+	var entry ssa.Value
+	for i, p := range hdr.Preds {
+		if !body[p] {
+			entry = posPhi.Edges[i]
+		}
+	}
+	if entry == nil {
+		return false
+	}
+	// a dominating class test on the same position with a contained class
+	for d := hdr.Idom(); d != nil; d = d.Idom() {
+		c, neg := condOf(d)
+		cc, pos, sv, ok := classTest(c)
+		if !ok || neg || pos != entry || sv != src {
+			continue
+		}
+		if !(d.Succs[0].Dominates(hdr) && len(d.Succs[0].Preds) == 1) {
+			continue
+		}
+		// class inclusion: every range of cc lies in some range of inner
+		incl := true
+		for i := 0; i+1 < len(cc.Rune); i += 2 {
+			found := false
+			for j := 0; j+1 < len(inner.Rune); j += 2 {
+				if inner.Rune[j] <= cc.Rune[i] && cc.Rune[i+1] <= inner.Rune[j+1] {
+					found = true
+				}
+			}
+			if !found {
+				incl = false
+			}
+		}
+		if incl {
+			return true
+		}
+	}
+	return false
 }
